@@ -333,9 +333,12 @@ class C10(Check):
             files, expect = special_program(kind, stmt, ctx)
             # positive control: the same program with a harmless statement instead of the write must compile and print the expected lines
             cfiles, _ = special_program(kind, "ctl9 = 1", ctx)
-            dc = driver.fresh_dir()
-            driver.write_files(dc, cfiles)
-            rc = driver.run(["run", "x.ms", "-q"], dc)
+            for _attempt in range(3):       # (a control that fails once on a busy machine - a time-out, the gc crate's debug assertion - is run again before it counts)
+                dc = driver.fresh_dir()
+                driver.write_files(dc, cfiles)
+                rc = driver.run(["run", "x.ms", "-q"], dc)
+                if rc.exit == 0 and rc.lines()[-len(expect):] == expect:
+                    break
             if rc.exit != 0 or rc.lines()[-len(expect):] != expect:
                 return {"outcome": "control-broken", "machinery": f"special declaration {kind}/{ctx}: the program without the write does not run: "
                                                                   f"{(rc.out + rc.err)[-300:]}"}
